@@ -315,6 +315,7 @@ MAIN:
 			}
 			log.Debugf("%s: sync acquired semaphore", d.Name())
 			go d.storeSyncMsg(ctx, syncup, sem)
+			verifYield("sync.spawned")
 		}
 	}
 }
@@ -343,6 +344,7 @@ func isState(r *sdcpb.GetSchemaResponse) bool {
 
 func (d *Datastore) storeSyncMsg(ctx context.Context, syncup *target.SyncUpdate, sem *semaphore.Weighted) {
 	defer sem.Release(1)
+	verifYield("sync.msg")
 
 	converter := utils.NewConverter(d.schemaClient)
 
